@@ -177,6 +177,20 @@ func cmdReplay(args []string) int {
 	if p == nil {
 		fatal2("unknown property " + rf.Property)
 	}
+	if rf.RaceMonitor != nil {
+		sig, detail, err := runRaceMonitor(*rf.RaceMonitor, "")
+		if err != nil {
+			fmt.Printf("replay: race monitor could not run: %v\n", err)
+			return 2
+		}
+		if sig == "" {
+			fmt.Printf("replay: the race monitor reported nothing this time (it is not deterministic; recorded signature %s)\n", rf.Signature)
+			return 0
+		}
+		fmt.Printf("signature=%s\ndetail=%s\n", sig, detail)
+		fmt.Printf("VIOLATION property=%s replay=%s\n", rf.Property, args[0])
+		return 1
+	}
 	runtime.GOMAXPROCS(1)
 	v, err := p.Check(rf.Case)
 	if err != nil {
@@ -459,6 +473,29 @@ func cmdRun(args []string) int {
 		exit = 1
 	}
 
+	// ---- supplementary race-detector monitor (C13 thorough only; not deterministic, not the deciding step)
+	var raceEv map[string]interface{}
+	if os.Getenv("SIMCHECK_RACEMON") != "" && p.ID() == "C13" {
+		spec := core.RaceSpec{Seed: *seed, Goroutines: 8, Rounds: 8, Per: 4}
+		t0 := time.Now()
+		sig, detail, err := runRaceMonitor(spec, *scratch)
+		raceEv = map[string]interface{}{"ran": err == nil, "goroutines": spec.Goroutines, "rounds": spec.Rounds, "instances": spec.Goroutines * spec.Rounds * spec.Per,
+			"wall_s": time.Since(t0).Seconds(), "finding": sig, "deterministic": false,
+			"note": "real goroutines over the real bytebufferpool under the Go race detector; supplementary evidence for the data-race clause"}
+		if err != nil {
+			infra += fmt.Sprintf("race monitor: %v\n", err)
+		} else if sig != "" {
+			nViol++
+			rf := core.ReplayFile{Property: "C13", Signature: sig, Detail: detail, Seed: *seed, Tier: *tier, Shrunk: "not minimised (race monitor)", RaceMonitor: &spec}
+			b, _ := json.MarshalIndent(rf, "", " ")
+			path := filepath.Join(*verif, "replays", fmt.Sprintf("C13-%d-race.json", *seed))
+			os.WriteFile(path, b, 0o644)
+			fmt.Printf("violation: %s\n  %s\n", sig, firstLines(detail, 12))
+			fmt.Printf("VIOLATION property=C13 replay=%s\n", path)
+			exit = 1
+		}
+	}
+
 	// ---- vacuity guards
 	if acc.Runs > 0 && acc.Unusable*5 > acc.Runs {
 		infra += fmt.Sprintf("cannot decide: %d of %d workloads have no usable fault-free baseline (round trip itself is broken; see C06)\n", acc.Unusable, acc.Runs)
@@ -508,22 +545,22 @@ func cmdRun(args []string) int {
 		"violations":  nViol,
 		"assumptions": p.Assumptions(),
 		"coverage": map[string]interface{}{
-			"evaluations":         acc.Evals,
-			"distinct_nontrivial": acc.DistinctTotal(),
-			"rule":                p.Rule(),
-			"samples":             samples,
-			"exhaustive":          false,
-			"simulated_runs":      acc.Runs,
-			"simulated_runs_per_hour": perHour(acc.Runs),
-			"cases_per_hour":      perHour(acc.Evals),
-			"seeds":               fmt.Sprintf("VERIF_SEED=%d; run i uses runseed = mix(seed, property, i), i in [0,%d)", *seed, total),
-			"simulated_time":      fmt.Sprintf("%d simulated steps (seam events: sink writes, source reads/seeks, pool and scheduler events); the system has no clock", acc.Steps),
-			"simulated_steps":     acc.Steps,
-			"counters":            counters,
-			"baseline_unusable":   acc.Unusable,
+			"evaluations":                 acc.Evals,
+			"distinct_nontrivial":         acc.DistinctTotal(),
+			"rule":                        p.Rule(),
+			"samples":                     samples,
+			"exhaustive":                  false,
+			"simulated_runs":              acc.Runs,
+			"simulated_runs_per_hour":     perHour(acc.Runs),
+			"cases_per_hour":              perHour(acc.Evals),
+			"seeds":                       fmt.Sprintf("VERIF_SEED=%d; run i uses runseed = mix(seed, property, i), i in [0,%d)", *seed, total),
+			"simulated_time":              fmt.Sprintf("%d simulated steps (seam events: sink writes, source reads/seeks, pool and scheduler events); the system has no clock", acc.Steps),
+			"simulated_steps":             acc.Steps,
+			"counters":                    counters,
+			"baseline_unusable":           acc.Unusable,
 			"truncated_by_wall_clock_cap": acc.Truncated,
-			"probes_required":     p.Probes(),
-			"probes_missing":      missing,
+			"probes_required":             p.Probes(),
+			"probes_missing":              missing,
 			"determinism_selftest": map[string]interface{}{
 				"processes":    nSelf,
 				"gomaxprocs":   []int{1, 4, 16},
@@ -538,6 +575,9 @@ func cmdRun(args []string) int {
 			},
 			"workers": *workers,
 		},
+	}
+	if raceEv != nil {
+		ev["coverage"].(map[string]interface{})["race_monitor"] = raceEv
 	}
 	os.MkdirAll(filepath.Join(*verif, "evidence"), 0o755)
 	eb, _ := json.MarshalIndent(ev, "", " ")
@@ -556,4 +596,52 @@ func cmdRun(args []string) int {
 		return 2
 	}
 	return 0
+}
+
+// runRaceMonitor runs the -race monitor binary named by SIMCHECK_RACEMON.
+// It returns a signature ("" when nothing was found) and the report.
+func runRaceMonitor(spec core.RaceSpec, scratch string) (string, string, error) {
+	bin := os.Getenv("SIMCHECK_RACEMON")
+	if bin == "" {
+		return "", "", fmt.Errorf("SIMCHECK_RACEMON is not set")
+	}
+	cmd := exec.Command(bin, "-seed", fmt.Sprint(spec.Seed), "-goroutines", fmt.Sprint(spec.Goroutines), "-rounds", fmt.Sprint(spec.Rounds), "-per", fmt.Sprint(spec.Per))
+	cmd.Env = append(os.Environ(), "GORACE=exitcode=66 halt_on_error=0")
+	done := make(chan struct{})
+	var out []byte
+	var err error
+	go func() { out, err = cmd.CombinedOutput(); close(done) }()
+	select {
+	case <-done:
+	case <-time.After(15 * time.Minute):
+		if cmd.Process != nil {
+			cmd.Process.Kill()
+		}
+		<-done
+		return "", "", fmt.Errorf("race monitor timed out")
+	}
+	code := 0
+	if ee, ok := err.(*exec.ExitError); ok {
+		code = ee.ExitCode()
+	} else if err != nil {
+		return "", "", err
+	}
+	text := string(out)
+	switch {
+	case strings.Contains(text, "WARNING: DATA RACE"):
+		return "C13/data-race", firstLines(text, 60), nil
+	case code == 1 && strings.Contains(text, "INTERFERENCE"):
+		return "C13/parallel-interference", firstLines(text, 20), nil
+	case code == 0:
+		return "", text, nil
+	}
+	return "", "", fmt.Errorf("race monitor exited %d: %s", code, firstLines(text, 20))
+}
+
+func firstLines(s string, n int) string {
+	lines := strings.Split(s, "\n")
+	if len(lines) > n {
+		lines = lines[:n]
+	}
+	return strings.Join(lines, "\n")
 }
